@@ -10,7 +10,7 @@ CONSTANTS
   MaxFaults = 1
   Grain = "op"
   Weaken = "none"
-  Stale = TRUE
+  Stale = FALSE
   ReadFaults = FALSE
 INVARIANT DbMatchesRules
 INVARIANT KeysMatchRules
